@@ -305,6 +305,14 @@ dt_get_wcnt_year(struct dt_d_s this, unsigned int wkcnt_convention)
 	int res;
 
 	switch (this.typ) {
+	case DT_YMCW:
+		if (wkcnt_convention == YWD_ABSWK_CNT) {
+			/* the count of the weekday within the year */
+			res = __ymcw_get_yday(this.ymcw);
+			break;
+		}
+		/* all other conventions go by the day of the year */
+		/*@fallthrough@*/
 	case DT_YMD:
 	case DT_DAISY:
 	case DT_YD: {
@@ -342,9 +350,6 @@ dt_get_wcnt_year(struct dt_d_s this, unsigned int wkcnt_convention)
 		}
 		break;
 	}
-	case DT_YMCW:
-		res = __ymcw_get_yday(this.ymcw);
-		break;
 	case DT_YWD:
 		res = __ywd_get_wcnt_year(this.ywd, wkcnt_convention);
 		break;
